@@ -1,7 +1,15 @@
 //! vp-lsp: language-server properties (C23 document sync, C24 scheduling, C26 incremental == fresh).
 mod c23;
+mod c24;
+mod c26;
+mod lsp;
 
 use vcommon::*;
+
+// the language server allocates from many short-lived threads; glibc's per-thread arenas spend more time in
+// mprotect than the compiler spends compiling
+#[global_allocator]
+static GLOBAL: tikv_jemallocator::Jemalloc = tikv_jemallocator::Jemalloc;
 
 fn main() {
     install_panic_hook();
@@ -10,12 +18,18 @@ fn main() {
         eprintln!("usage: vp-lsp <Cnn> <quick|thorough> | replay <file>");
         std::process::exit(2);
     }
+    if matches!(args[1].as_str(), "C24" | "C26") {
+        // before any thread exists: isolate HOME and TMPDIR below the scratch directory
+        lsp::init_process_env("vp-lsp");
+    }
     let h = std::thread::Builder::new()
         .stack_size(512 << 20)
         .spawn(move || {
             let tier = args.get(2).map(|s| s.as_str()).unwrap_or("quick").to_string();
             match args[1].as_str() {
                 "C23" => c23::run(&Ctx::new("C23", &tier)),
+                "C24" => c24::run(&Ctx::new("C24", &tier)),
+                "C26" => c26::run(&Ctx::new("C26", &tier)),
                 "replay" => replay(&args[2]),
                 x => {
                     eprintln!("unknown command {x}");
@@ -35,6 +49,13 @@ fn replay(path: &str) {
     let case = &v["case"];
     let res: Result<(), String> = match prop.as_str() {
         "C23" => c23::replay(case),
+        "C24" => {
+            lsp::init_process_env("vp-lsp-replay");
+            let r = c24::replay(case);
+            lsp::cleanup_process_env();
+            r
+        }
+        "C26" => c26::replay(case),
         _ => Err(format!("no stand-alone replay for {prop}")),
     };
     match res {
